@@ -107,6 +107,7 @@ func (server *Server) Start() {
 		for {
 			select {
 			case req := <-server.reqs:
+				verifLoopEvent("req", req.key, req.purgeEtag)
 				if len(req.purgeEtag) > 0 {
 					if _, dup := inflight[req.key]; !dup {
 						server.metrics.reloadFile(req.key.name)
@@ -226,6 +227,7 @@ func (server *Server) Start() {
 					}()
 				}
 			case resp := <-resps:
+				verifLoopEvent("resp", resp.key, "")
 				key := resp.key
 				// check if there are any requests waiting on the key
 				for _, v := range inflight[key] {
@@ -249,6 +251,7 @@ func (server *Server) Start() {
 						}
 						evictList.Remove(ent)
 						kv := ent.Value.(*response)
+						verifLoopEvent("evict", kv.key, "")
 						delete(cache, kv.key)
 						totalSize -= kv.size
 					}
